@@ -7,6 +7,50 @@ open Curved
 
 def trip {α} [Codec α] (m : α × α × α) : String := s!"{Out.sc m.1} {Out.sc m.2.1} {Out.sc m.2.2}"
 
+/-- one statement of a history: `i<kind> v qx qy qz`
+    (kind 0/1/2 = set a/b/c (radius = a), 3 = set centroid, 4 = read a getter, 5 = to_hoomd) -/
+def rdStep {α} [Codec α] (c : Ctx) : Rd (Step α) := do
+  let k ← Rd.nat c
+  let v : α ← Rd.sc c
+  let q : V3 α ← Rd.v3 c
+  pure <| match k with
+    | 0 => Step.setA v
+    | 1 => Step.setB v
+    | 2 => Step.setC v
+    | 3 => Step.setCen q
+    | 4 => Step.read
+    | _ => Step.toHoomd
+
+/-! Independent evaluation of the CONTRACT functions of `scipy.special` inside the driver (Carlson's symmetric forms
+    by the duplication theorem; 40 duplications, after which the truncation error is far below one ulp).
+    `E(φ|m) = s·R_F(c², 1−m s², 1) − (m/3) s³ R_D(c², 1−m s², 1)`, `F(φ|m) = s·R_F(c², 1−m s², 1)`, `s = sin φ`. -/
+section carlson
+variable {α : Type} [Scalar α]
+open Scalar
+
+def carlsonStep (st : α × α × α × α × α) : α × α × α × α × α :=
+  let (x, y, z, sum, fac) := st
+  let sx := Scalar.sqrt x
+  let sy := Scalar.sqrt y
+  let sz := Scalar.sqrt z
+  let lam := sx * sy + sy * sz + sz * sx
+  ((x + lam) / lit 4, (y + lam) / lit 4, (z + lam) / lit 4, sum + fac / (sz * (z + lam)), fac / lit 4)
+
+/-- `(R_F(x,y,z), R_D(x,y,z))` -/
+def carlsonFD (x y z : α) : α × α :=
+  let st := (List.range 40).foldl (fun st _ => carlsonStep st) (x, y, z, lit 0, lit 1)
+  let (x', y', z', sum, fac) := st
+  let muF := (x' + y' + z') / lit 3
+  let muD := (x' + y' + lit 3 * z') / lit 5
+  (lit 1 / Scalar.sqrt muF, lit 3 * sum + fac / (muD * Scalar.sqrt muD))
+
+/-- `(F(φ|m), E(φ|m))` from `s = sin φ`, `c2 = cos² φ` -/
+def legendreFE (s c2 m : α) : α × α :=
+  -- `1 − m s² = (1 − m) + m c²` (no cancellation near `m = 1`, `φ = π/2`)
+  let (rf, rd) := carlsonFD c2 ((lit 1 - m) + m * c2) (lit 1)
+  (s * rf, s * rf - m / lit 3 * s * s * s * rd)
+end carlson
+
 /-- driver ops of C10. `none` = unknown op.
     scipy's elliptic integrals are inputs: the `*.args` ops return the arguments the model hands
     to them, the harness evaluates scipy there and sends the values back to the `*.all` ops. -/
@@ -62,6 +106,29 @@ def run (α : Type) [Scalar α] [Codec α] (op : String) (c : Ctx) : Option (Rd 
       let E : α → α → α := fun _ _ => e
       let K : α → α → α := fun _ _ => k
       pure s!"{Out.sc (Ellipsoid.volume a b cc)} {Out.sc (Ellipsoid.surfaceArea E K a b cc)} {Out.m3 (Ellipsoid.inertiaTensor a b cc cen)} {Out.sc (Ellipsoid.iq E K a b cc)}"
+  | "c10.history.run" => some do
+      -- in: list axes, cen(3), list steps ; out: final a b c cen(3), then one bool per step (did it raise)
+      let axes : List α ← Rd.list c (Rd.sc c)
+      let cen : V3 α ← Rd.v3 c
+      let steps : List (Step α) ← Rd.list c (rdStep c)
+      match construct axes cen with
+      | .error k => pure s!"E:{k}"
+      | .ok s0 =>
+        let s := s0.run steps
+        pure s!"{Out.sc s.a} {Out.sc s.b} {Out.sc s.c} {Out.v3 s.cen} {Out.bools (s0.trace steps)}"
+  | "c10.contract.incomplete" => some do
+      -- in: phi m ; out: F(phi|m) E(phi|m)  (Carlson duplication; mode F only)
+      let phi : α ← Rd.sc c
+      let m : α ← Rd.sc c
+      let s := Scalar.sin phi
+      let co := Scalar.cos phi
+      let r := legendreFE s (co * co) m
+      pure s!"{Out.sc r.1} {Out.sc r.2}"
+  | "c10.contract.complete" => some do
+      -- in: m ; out: K(m) E(m)  (phi = pi/2 exactly: s = 1, c² = 0)
+      let m : α ← Rd.sc c
+      let r := legendreFE (Scalar.lit 1 : α) (Scalar.lit 0) m
+      pure s!"{Out.sc r.1} {Out.sc r.2}"
   -- ---- spec (use mode Q with p = 1: exact values in units of π)
   | "c10.spec.disc" => some do
       -- in: p r cx cy ; out: area ix iy ixy polar
